@@ -1,7 +1,7 @@
-CONSTANTS PS = 4  PBits = 2  MaxAddr = 13  MaxRegions = 2  MaxKFrames = 2  WB = 4  MaxEarly = 0  MaxOps = 0
-  Family = "all"  AllowFree = FALSE  Mode = "boot"  Bug = "JumpFromOtherRegion"  Emit = FALSE
+CONSTANTS PS = 4  PBits = 2  MaxAddr = 23  MaxRegions = 3  MaxKFrames = 2  WB = 4  MaxEarly = 0  MaxOps = 0
+  Family = "hist"  AllowFree = FALSE  Mode = "boot"  Bug = "JumpFromOtherRegion"  Emit = FALSE
   Props = {"C01", "C02", "C03"}
-CONSTANT HistMaps <- MCHistMaps
+CONSTANT HistMaps <- MCTailMaps
 INIT Init
 NEXT Next
 INVARIANT NoMismatch
